@@ -48,6 +48,9 @@ DEFAULT_PROFILE: Dict[str, Any] = {
     "cids": False,
     "output": False,
     "unhandled_service_errors": True,   # a raising service without onError (-> _fail)
+    "p_always": 12,          # percent chance a state declares an `always` transition
+    "prefix_keys": False,    # sibling keys where one is a textual prefix of another (a / ab)
+    "hist_at_root": False,   # history child directly under the machine root
     # exclusions (open findings); each entry is a relation class or a named shape
     "exclude_classes": [],
     "class_weights": None,
@@ -110,6 +113,8 @@ def _gen_state(d: D, prof, depth: int, key: str, parent_kind: Optional[str], bud
             k = KEYS[i]
             if prof["long_keys"] and d.chance(30):
                 k = LONG[k]
+            elif prof.get("prefix_keys") and i >= 1 and d.chance(25):
+                k = KEYS[0] + KEYS[i]  # "ab" next to its sibling "a": ids that only share a text prefix
             # first child of a compound state is its default initial: keep it non-final mostly
             af = not (kind == "compound" and i == 0 and not d.chance(10))
             kids.append(_gen_state(d, prof, depth + 1, k, kind, budget, allow_final=af))
@@ -267,7 +272,7 @@ def _populate(d: D, prof, spec):
             on.append(["*", [_gen_transition(d, prof, spec, tree, sid, [])]])
         if on:
             s["on"] = on
-        if prof["always"] and d.chance(12):
+        if prof["always"] and d.chance(prof.get("p_always", 12)):
             s["always"] = [_gen_transition(d, prof, spec, tree, sid, [], need_guard=True)]
         if prof["ondone"] and s["kind"] in ("compound", "parallel") and path and d.chance(50):
             # onDone back into the completed state's own line (self/ancestor/descendant) re-completes
